@@ -63,6 +63,9 @@ def oracle_violations(cases, res):
     bad = []
     for c, r in zip(cases, res):
         inp = r["inputs"]
+        for m_ in r.get("oracle", []):
+            if m_.startswith("Student-t scale"):        # structural clause of the Student-t losses (measured on the implementation side)
+                bad.append({"loss": c["loss"], "case": c, "message": m_, "scale_over_sigma_range": r.get("student_scale_ratio")})
         H, W = c["H"], c["W"]
         sfx = c["suffix"]
         lat = {(k[: len(k) - len(sfx)] if sfx else k): float.fromhex(v) for k, v in r["latents"].items()}
